@@ -12,6 +12,7 @@ shallow(o)   identity-level shallow state of one object (which objects its slots
 import enum
 import hashlib
 import json
+from fractions import Fraction
 
 from pycaption.base import CaptionSet, CaptionList, Caption, CaptionNode
 from pycaption.geometry import Layout
@@ -54,7 +55,7 @@ def lay_flags(l):
 def lay_code(l):
     """256 * (24-bit digest of what Layout.__eq__ compares) + flags (bit 7 is 0)"""
     try:
-        ser = repr(l.serialized())
+        ser = repr(l.serialized()) + repr([getattr(l, a, None) is None for a in ("origin", "extent", "padding", "alignment")])
     except Exception:  # noqa
         ser = repr(sorted((k, repr(v)) for k, v in vars(l).items()))
     d = int(hashlib.sha1(ser.encode("utf-8", "surrogatepass")).hexdigest()[:6], 16)
@@ -78,6 +79,8 @@ def tree(o, depth=0):
         return "y:%r" % o
     if isinstance(o, enum.Enum):
         return "e:%s.%s" % (type(o).__name__, o.name)
+    if isinstance(o, Fraction):
+        return "q:%s" % o
     d = depth + 1
     t = type(o)
     if t in FIELDS:
@@ -140,7 +143,14 @@ def children(o):
 
 
 def is_mutable(o):
-    return not isinstance(o, ATOMS + (tuple, frozenset))
+    """Mutable = an object the public API can change in place: dict / list / set, CaptionSet / CaptionList / Caption /
+    CaptionNode (attributes are assigned by pycaption itself and by its users) and any other object with a __dict__.
+    NOT mutable: atoms, tuples, frozensets, Fractions, and the geometry VALUE objects (Layout, Point, Size, Stretch,
+    Padding, Alignment: value __eq__/__hash__, no method of pycaption.geometry assigns an attribute outside __init__,
+    every transformation returns a new object) - sharing them between caption sets cannot break isolation."""
+    if isinstance(o, ATOMS + (tuple, frozenset, Fraction)):
+        return False
+    return (type(o).__module__ or "") != "pycaption.geometry"
 
 
 def mutables(root, stop=None, limit=200000):
@@ -190,3 +200,27 @@ def shallow_diff(a, b):
 
 def cls_name(o):
     return type(o).__name__
+
+
+def alias_signature(root):
+    """the sharing structure inside one object graph: the groups of paths (>= 2) that lead to one and the same mutable
+    object; [] for a tree.  Used (a) to key "same snapshot" on graphs that really are the same up to identity, (b) to
+    know when the tree-shaped model of a set stops being comparable after an in-place edit."""
+    paths = {}
+    stack = [(root, "")]
+    seen_edges = set()
+    while stack:
+        o, p = stack.pop()
+        if isinstance(o, ATOMS) or isinstance(o, type):
+            continue
+        if is_mutable(o):
+            first = id(o) not in paths
+            paths.setdefault(id(o), []).append(p)
+            if not first:
+                continue
+        for name, c in children(o):
+            if (id(o), name) not in seen_edges or not is_mutable(o):
+                seen_edges.add((id(o), name))
+                stack.append((c, p + name))
+    groups = sorted(sorted(v) for v in paths.values() if len(v) > 1)
+    return groups
